@@ -9,7 +9,8 @@
   Helper lemmas: GabiProofs.MiscLemmas.
 
   Known finding kept visible here: `ambiguity_witness` (revocationAttrIndex may have several
-  candidates; Go picks one in map-iteration order).
+  candidates; Go picks one in map-iteration order). Repaired: index 0 (the secret key) is no
+  candidate any more (`secret_key_never_revocation_index`, `accepted_choice_never_secret_key`).
 -/
 import GabiModel.Proofs
 import GabiModel.ReprProof
@@ -385,53 +386,68 @@ theorem zero_bases_forgery (pk : PublicKey) (p : NonRevProof) (nu ch alpha : Int
 
 /-! ### `revocationAttrIndex` -/
 
-/-- a proof with two hidden responses below the bound (secret key at 0, one attribute at 1). -/
+/-- a proof with three hidden responses below the bound: the secret key at 0 (never a candidate)
+    and two attributes at 1 and 2 (both candidates). -/
 def ambiguousProof : ProofD :=
   { c := some 1, a := some 2, eResponse := some 3, vResponse := some 4,
-    aResponses := [(0, some 5), (1, some 7)], aDisclosed := [],
+    aResponses := [(0, some 5), (1, some 7), (2, some 6)], aDisclosed := [],
     nonrev := some { cr := some 2, cu := some 3, responses := [], sacc := none },
     rangeProofs := none }
 
 /-- **Known finding (C11/revocation-attr-index-ambiguity).** `revocationAttrIndex` can have
-    more than one candidate: then Go's choice depends on map iteration order. -/
+    more than one candidate: then Go's choice depends on map iteration order. (Since the repair
+    of `revocationAttrIndex` the secret key at index 0 is no candidate, although its response
+    `5` is below the bound; the two attribute indices 1 and 2 still both are.) -/
 theorem ambiguity_witness :
-    ambiguousProof.revocationCandidates = [0, 1] ∧ ambiguousProof.revChoices = [0, 1] := by
-  have h : ambiguousProof.revocationCandidates = [0, 1] := by
+    ambiguousProof.revocationCandidates = [1, 2] ∧ ambiguousProof.revChoices = [1, 2] := by
+  have h : ambiguousProof.revocationCandidates = [1, 2] := by
     rw [revocationCandidates_eq]
-    have h5 : belowRevMax (0, some 5) = true := by
-      unfold belowRevMax revIdxMax
-      simp only [decide_eq_true_eq]
-      exact lt_of_lt_of_le (by norm_num : (5 : Int) < 2 ^ 3) (pow_le_pow_right₀ (by norm_num) (by decide))
+    have hlt : ∀ x : Int, x < 2 ^ 3 → x < revIdxMax := fun x hx =>
+      lt_of_lt_of_le hx (pow_le_pow_right₀ (by norm_num) (by decide))
+    have h5 : belowRevMax (0, some 5) = false := by
+      rw [belowRevMax_some]; simp
     have h7 : belowRevMax (1, some 7) = true := by
-      unfold belowRevMax revIdxMax
-      simp only [decide_eq_true_eq]
-      exact lt_of_lt_of_le (by norm_num : (7 : Int) < 2 ^ 3) (pow_le_pow_right₀ (by norm_num) (by decide))
-    show (List.filter belowRevMax [(0, some 5), (1, some 7)]).map (·.1) = [0, 1]
-    simp [List.filter, h5, h7]
+      rw [belowRevMax_some]
+      simp only [Bool.and_eq_true, decide_eq_true_eq]
+      exact ⟨by decide, hlt 7 (by norm_num)⟩
+    have h6 : belowRevMax (2, some 6) = true := by
+      rw [belowRevMax_some]
+      simp only [Bool.and_eq_true, decide_eq_true_eq]
+      exact ⟨by decide, hlt 6 (by norm_num)⟩
+    show (List.filter belowRevMax [(0, some 5), (1, some 7), (2, some 6)]).map (·.1) = [1, 2]
+    simp [List.filter, h5, h7, h6]
   refine ⟨h, ?_⟩
   unfold ProofD.revChoices
   rw [h]
   rfl
 
-/-- If exactly one hidden response (keys are unique, as in a Go map) is below
-    `2^(AttributeSize+ChallengeLength+ZkStat+1)`, then `revocationAttrIndex` has no choice:
-    `revChoices` is that singleton. -/
+/-- If exactly one hidden response other than the secret key (keys are unique, as in a Go map)
+    is below `2^(AttributeSize+ChallengeLength+ZkStat+1)`, then `revocationAttrIndex` has no
+    choice: `revChoices` is that singleton. The response at index 0 (the secret key) is not
+    constrained: it is never a candidate. -/
 theorem rev_index_unique (p : ProofD) (nr : NonRevProof) (hnr : p.nonrev = some nr)
-    (hkeys : (p.aResponses.map (·.1)).Nodup) (i r : Int) (hi : (i, some r) ∈ p.aResponses)
+    (hkeys : (p.aResponses.map (·.1)).Nodup) (i r : Int) (hi0 : i ≠ 0)
+    (hi : (i, some r) ∈ p.aResponses)
     (hr : r < 2 ^ (Gen.revAttributeSize + Gen.revChallengeLength + Gen.revZkStat + 1))
-    (hothers : ∀ kv ∈ p.aResponses, kv.1 ≠ i →
+    (hothers : ∀ kv ∈ p.aResponses, kv.1 ≠ i → kv.1 ≠ 0 →
       ∀ r', kv.2 = some r' → 2 ^ (Gen.revAttributeSize + Gen.revChallengeLength + Gen.revZkStat + 1) ≤ r') :
     p.revChoices = [i] := by
   apply revChoices_of_single p nr (i, some r) hnr
   apply filter_eq_singleton belowRevMax (·.1) _ _ hkeys hi
-  · unfold belowRevMax revIdxMax; simpa using hr
+  · rw [belowRevMax_some]
+    simp only [Bool.and_eq_true, decide_eq_true_eq]
+    exact ⟨hi0, hr⟩
   · intro kv hkv hne
-    unfold belowRevMax revIdxMax
-    rcases hv : kv.2 with _ | r'
+    obtain ⟨k, v⟩ := kv
+    rcases v with _ | r'
     · rfl
-    · have := hothers kv hkv hne r' hv
-      simp only [decide_eq_false_iff_not, not_lt]
-      exact this
+    · rw [belowRevMax_some]
+      by_cases hk : k = 0
+      · simp [hk]
+      · have := hothers (k, some r') hkv hne hk r' rfl
+        simp only [Bool.and_eq_false_imp, decide_eq_true_eq, decide_eq_false_iff_not, not_lt]
+        intro _
+        exact this
 
 /-- without a non-revocation part, or without candidate, the index is −1. -/
 theorem rev_index_none (p : ProofD) :
@@ -441,6 +457,57 @@ theorem rev_index_none (p : ProofD) :
   refine ⟨fun h => by rw [h], fun h => ?_⟩
   rw [h]
   cases p.nonrev <;> rfl
+
+/-- **The secret key is never the revocation attribute.** Index 0 of `AResponses` is the response
+    of the holder-chosen secret key; the repaired `revocationAttrIndex` skips it, whatever its
+    size. This is what rules out the class `foreign-witness-via-secret-key` of the battery: a
+    holder who picks his secret key equal to the `e` of somebody else's (non-revoked) witness
+    cannot make the verifier tie that foreign witness to his credential through index 0. -/
+theorem secret_key_never_revocation_index : ∀ p : ProofD, (0 : Int) ∉ p.revocationCandidates :=
+  zero_not_mem_revocationCandidates
+
+/-- … hence no choice of `revocationAttrIndex` is 0: a choice is either `-1` or a candidate. -/
+theorem revChoices_ne_zero (p : ProofD) : ∀ i ∈ p.revChoices, i ≠ 0 := by
+  intro i hi h0
+  subst h0
+  unfold ProofD.revChoices at hi
+  cases hn : p.nonrev with
+  | none => rw [hn] at hi; simp at hi
+  | some nr =>
+    rw [hn] at hi
+    cases hc : p.revocationCandidates with
+    | nil => rw [hc] at hi; simp at hi
+    | cons x xs =>
+      rw [hc] at hi
+      exact secret_key_never_revocation_index p (hc ▸ hi)
+
+/-- **Corollary for accepted proofs** (companion of `accepted_proof_is_tied`). If `ProofD.Verify`
+    accepts a proof with a non-revocation part for two picks `i₁ i₂` that `revocationAttrIndex`
+    can actually make (`revChoices`), then both picks are attribute indices `≥ 1`: the hidden
+    response that `accepted_proof_is_tied` identifies with the `alpha` of the non-revocation
+    proof is never the response of the secret key at index 0. So the witness exponent `e` that
+    the non-revocation proof speaks about is an issuer-signed attribute of the credential, not
+    the holder-chosen secret key — the class `foreign-witness-via-secret-key` of the battery
+    (secret key := `e` of a foreign witness, all real attributes large) is rejected. -/
+theorem accepted_choice_never_secret_key (o : SigOracle) (kid : String) (pk : PublicKey)
+    (p : ProofD) (nr : NonRevProof) (ctx nonce : Int) (issig : Bool) (i1 i2 : Int)
+    (hnr : p.nonrev = some nr) (hi1 : i1 ∈ p.revChoices) (hi2 : i2 ∈ p.revChoices)
+    (h : p.verifyWith o kid pk ctx nonce issig i1 i2 = .ok true) :
+    (1 ≤ i1 ∧ 1 ≤ i2) ∧ i1 ∈ p.revocationCandidates ∧ i2 ∈ p.revocationCandidates := by
+  obtain ⟨h1, h2, _⟩ := accepted_proof_is_tied o kid pk p nr ctx nonce issig i1 i2 hnr h
+  have n1 := revChoices_ne_zero p i1 hi1
+  have n2 := revChoices_ne_zero p i2 hi2
+  refine ⟨⟨by omega, by omega⟩, ?_⟩
+  unfold ProofD.revChoices at hi1 hi2
+  rw [hnr] at hi1 hi2
+  cases hc : p.revocationCandidates with
+  | nil =>
+    rw [hc] at hi1
+    simp only [List.mem_singleton] at hi1
+    omega
+  | cons x xs =>
+    rw [hc] at hi1 hi2
+    exact ⟨hi1, hi2⟩
 
 /-! ### non-vacuity -/
 
@@ -469,6 +536,20 @@ set_option exponentiation.threshold 1024 in
     accepted: it is a unit, only not the canonical representative. -/
 example : (setExpectedResult { exNr with cu := some 38 } 29 99 5).verifyWithChallenge
     exOracle "toy-2" exPk 99 = (true, some exAcc) := by decide
+
+/-- `rev_index_unique`: hypotheses satisfiable – a small secret-key response at index 0 next to
+    one small attribute response at index 1 leaves exactly the choice `1` (before the repair the
+    choices were `[0, 1]`). -/
+example : ({ ambiguousProof with aResponses := [(0, some 5), (1, some 7)] } : ProofD).revChoices
+    = [1] := by
+  refine rev_index_unique _ _ rfl (by decide) 1 7 (by decide) (by simp)
+    (lt_of_lt_of_le (by norm_num : (7 : Int) < 2 ^ 3) (pow_le_pow_right₀ (by norm_num) (by decide)))
+    ?_
+  intro kv hkv h1 h0
+  simp only [List.mem_cons, List.not_mem_nil, or_false] at hkv
+  rcases hkv with rfl | rfl
+  · exact absurd rfl h0
+  · exact absurd rfl h1
 
 /-- `zero_bases_forgery`: hypotheses satisfiable. -/
 example : (⟨some 0, some 0, some 29, some 99,
@@ -537,3 +618,6 @@ end Gabi.C11
 #print axioms Gabi.C11.ambiguity_witness
 #print axioms Gabi.C11.rev_index_unique
 #print axioms Gabi.C11.rev_index_none
+#print axioms Gabi.C11.secret_key_never_revocation_index
+#print axioms Gabi.C11.revChoices_ne_zero
+#print axioms Gabi.C11.accepted_choice_never_secret_key
